@@ -13,9 +13,13 @@ CONSTANTS
  MaxAdmin = 4
  MaxClose = 2
  MaxInval = 1
+ MaxCompact = 1
  FixRelease = TRUE
  DevReleaseRace = FALSE
  DevPutIfOwnerOther = FALSE
+ DevReacqBlind = FALSE
+ DevDropSameRev = FALSE
+ DevNoReload = FALSE
  FixRev = TRUE
  KeepHist = TRUE
 INIT Init
